@@ -18,13 +18,45 @@ fn case_str(st: bool, n: usize, a: &[u64], b: &[u64], op: Option<BinOp>, form: u
 
 /// Slow path, by the book: one operand pair, one operator, one form.
 fn check_one<L: Tab>(n: usize, a: &[u64], b: &[u64], op: Option<BinOp>, form: usize) -> Verdict {
+    check_prov::<L>(n, a, b, op, form, "blocks", "blocks")
+}
+
+/// How an operand table came to be (every route is public API and must give the same table):
+/// blocks = from_blocks; cfrom.m = clone_from into an existing table of m variables (the
+/// dynamic type; the alias: into an existing table); cfrom2.m.k = clone_from into a table that
+/// itself was clone_from'ed (k variables, then m); clone; hex = from_hex_string(to_hex_string);
+/// notnot = !!a.
+pub const PROVENANCES: [&str; 7] = ["clone", "hex", "notnot", "cfrom.0", "cfrom.3", "cfrom.6", "cfrom.8"];
+
+fn provenance<L: Tab>(n: usize, w: &[u64], prov: &str) -> L {
+    let base: L = mk(n, w);
+    let p: Vec<&str> = prov.split('.').collect();
+    let num = |k: usize| -> usize { p.get(k).and_then(|x| x.parse().ok()).unwrap_or(0) };
+    match p[0] {
+        "blocks" => base,
+        "clone" => base.clone(),
+        "hex" => L::t_from_hex(n, &base.t_hex()).expect("harness: hex round trip"),
+        "notnot" => base.t_not().t_not(),
+        "cfrom" => base.t_clone_from_into(num(1)),
+        "cfrom2" => {
+            // destination: a table of m variables that was itself overwritten from one of k variables
+            let mid: L = if L::STATIC { base.t_not() } else { mk::<L>(num(2), &vec![0u64; crate::model::tt::nwords(num(2))]).t_clone_from_into(num(1)) };
+            let mut d = mid;
+            d.clone_from(&base);
+            d
+        }
+        _ => panic!("harness: unknown provenance"),
+    }
+}
+
+fn check_prov<L: Tab>(n: usize, a: &[u64], b: &[u64], op: Option<BinOp>, form: usize, pa: &str, pb: &str) -> Verdict {
     let (ma, mb) = match (TT::from_words(n, a), TT::from_words(n, b)) {
         (Some(x), Some(y)) => (x, y),
         _ => return Err(("harness".into(), "case operands are not well-formed".into())),
     };
     let r = guarded(|| {
-        let la: L = mk(n, a);
-        let lb: L = mk(n, b);
+        let la: L = provenance(n, a, pa);
+        let lb: L = provenance(n, b, pb);
         // operands observed before the call, through value()
         let va = abs_by_value(&la);
         let vb = abs_by_value(&lb);
@@ -45,7 +77,7 @@ fn check_one<L: Tab>(n: usize, a: &[u64], b: &[u64], op: Option<BinOp>, form: us
         Err(p) => fail(format!("{} returns a table", fname), p),
         Ok((va, vb, (res, aa, bb))) => {
             if va != ma || vb != mb {
-                return fail("value() of from_blocks(w) reads bit m of w", format!("a={} b={}", show_tt(&va), show_tt(&vb)));
+                return fail(format!("value() of the operands (a via {}, b via {}) reads bit m of their tables", pa, pb), format!("a={} b={}", show_tt(&va), show_tt(&vb)));
             }
             let model = match op {
                 None => TT::from_fn(n, |m| !va.get(m)),
@@ -73,10 +105,12 @@ pub fn replay(case: &Case) -> Result<Verdict, String> {
         s => Some(BinOp::from_name(s).ok_or("bad op")?),
     };
     let form = case.usize("form")?;
-    fn go<L: Tab>(n: usize, a: &[u64], b: &[u64], op: Option<BinOp>, form: usize) -> Verdict {
-        check_one::<L>(n, a, b, op, form)
+    let pa = case.opt("pa").unwrap_or("blocks").to_string();
+    let pb = case.opt("pb").unwrap_or("blocks").to_string();
+    fn go<L: Tab>(n: usize, a: &[u64], b: &[u64], op: Option<BinOp>, form: usize, pa: &str, pb: &str) -> Verdict {
+        check_prov::<L>(n, a, b, op, form, pa, pb)
     }
-    Ok(for_type!(st, n, go(n, &a, &b, op, form)))
+    Ok(for_type!(st, n, go(n, &a, &b, op, form, &pa, &pb)))
 }
 
 fn report(l: &mut Local, st: bool, n: usize, a: &[u64], b: &[u64], op: Option<BinOp>, form: usize, v: (String, String)) {
@@ -392,6 +426,62 @@ fn aliased<L: Tab>(run: &Run, st: bool, n: usize) {
     });
 }
 
+/// Operands that reached their value by another public route than from_blocks.
+fn provenances<L: Tab>(run: &Run, st: bool, n: usize) {
+    let mut fam: Vec<TT> = alpha::named(n).into_iter().take(4).collect();
+    let pats = alpha::word_patterns(n, run.seed, 0);
+    fam.push(pats[pats.len() - 1].clone());
+    fam.push(pats[pats.len() / 2].not());
+    fam.dedup();
+    let mut provs: Vec<String> = PROVENANCES.iter().map(|s| s.to_string()).collect();
+    if !st {
+        for m in 0..=9usize {
+            provs.push(format!("cfrom.{}", m));
+        }
+        for (m, k) in [(2usize, 7usize), (7, 2), (6, 8), (8, 6), (0, 9), (9, 0), (5, 3)] {
+            provs.push(format!("cfrom2.{}.{}", m, k));
+        }
+    } else {
+        provs.push("cfrom2.0.0".into());
+    }
+    provs.sort();
+    provs.dedup();
+    let np = provs.len() as u64;
+    let nf = fam.len() as u64;
+    let total = nf * nf * np;
+    run.section(&format!("PROVENANCE n={} {}: operands obtained by clone / clone_from (into tables of other sizes) / hex round trip / !! / conversion, then all 28 forms", n, L::tname(n)), false, &format!("{} tables x {} tables x {} routes for a (b via clone_from into a table of another size, and vice versa)", nf, nf, np), total, 4, |r, l| {
+        for idx in r {
+            let a = &fam[(idx / (nf * np)) as usize];
+            let b = &fam[((idx / np) % nf) as usize];
+            let pa = &provs[(idx % np) as usize];
+            let pb = if st { "clone".to_string() } else { format!("cfrom.{}", (n + 3) % 10) };
+            l.states += 1;
+            l.nontrivial += 1;
+            for (x, y) in [(pa.as_str(), pb.as_str()), (pb.as_str(), pa.as_str())] {
+                for f in 0..4 {
+                    l.transitions += 1;
+                    l.validated += 1;
+                    if let Err(v) = check_prov::<L>(n, &a.w, &b.w, None, f, x, y) {
+                        let sig = format!("C01/{}/provenance/{}", if st { "LutN" } else { "Lut" }, x.split('.').next().unwrap_or(""));
+                        l.violation(format!("{:02}|{}|prov|{}|{}|not{}|{}|{}", n, tyname(st), x, y, f, fmt_words(&a.w), fmt_words(&b.w)), &sig, format!("{};pa={};pb={}", case_str(st, n, &a.w, &b.w, None, f), x, y), v.0, v.1);
+                    }
+                }
+                for op in BinOp::ALL {
+                    for f in 0..8 {
+                        l.transitions += 1;
+                        l.validated += 1;
+                        if let Err(v) = check_prov::<L>(n, &a.w, &b.w, Some(op), f, x, y) {
+                            let sig = format!("C01/{}/provenance/{}", if st { "LutN" } else { "Lut" }, x.split('.').next().unwrap_or(""));
+                            l.violation(format!("{:02}|{}|prov|{}|{}|{}{}|{}|{}", n, tyname(st), x, y, op.name(), f, fmt_words(&a.w), fmt_words(&b.w)), &sig, format!("{};pa={};pb={}", case_str(st, n, &a.w, &b.w, Some(op), f), x, y), v.0, v.1);
+                        }
+                    }
+                }
+            }
+            l.digest ^= crate::engine::mix3(idx, n as u64, 0x9907);
+        }
+    });
+}
+
 fn alias_ops<L: Tab>(a: &L, op: BinOp) -> L {
     // the reference/reference operator form with pointer-identical operands
     L::t_alias_form(op, a)
@@ -425,6 +515,13 @@ pub fn run(run: &Run) {
         if n <= 12 {
             for_static!(n, al(run, true, n));
         }
+    }
+    fn pv<L: Tab>(run: &Run, st: bool, n: usize) {
+        provenances::<L>(run, st, n)
+    }
+    for n in 0..=10usize {
+        pv::<volute::Lut>(run, false, n);
+        for_static!(n, pv(run, true, n));
     }
     let sizes: Vec<usize> = (4..=14).collect();
     for n in sizes {
